@@ -220,8 +220,12 @@ impl TokenType {
         match self {
             If | Else | While | Array | Of | Proc | Ref | Type | Var | Colon | Divide | Lt | Gt
             | Int(_) | Ident(_) | Hex(_) => 1,
+            // A lone `'` at the end of the text is `Unknown`, but becomes a `Char`
+            // as soon as a character follows. A comment at the end of the text
+            // (without line feed) is extended by appended characters.
+            Unknown(_) | Comment(_) => 1,
             LParen | RParen | LBracket | RBracket | LCurly | RCurly | Eq | Neq | Le | Ge
-            | Assign | Comma | Semic | Plus | Minus | Times | Comment(_) | Unknown(_) | Eof => 0,
+            | Assign | Comma | Semic | Plus | Minus | Times | Eof => 0,
             Char(_) => {
                 1 // this is a worst case look ahead.
             }
